@@ -153,7 +153,7 @@ def run(ctx, impl_only=False):
             model_bases = []
             for p in cpaths[: (4 if ctx.thorough() else 2)]:
                 rec = ddiff.get('values_changed', {}).get(p) or ddiff.get('type_changes', {}).get(p) or {}
-                wrongs = [('fresh', SENTINEL)]
+                wrongs = [('fresh', SENTINEL), ('nan', float('nan'))]          # a NaN in place of the old value is a mismatch like any other
                 if 'new_value' in rec and 'old_value' in rec and not (rec['new_value'] == rec['old_value']):
                     wrongs.append(('recorded_new_value', copy.deepcopy(rec['new_value'])))      # the base already holds the new value there
                 for (kind, wrong) in wrongs:
@@ -163,6 +163,16 @@ def run(ctx, impl_only=False):
                         ctx.count('corruption_unreachable'); continue
                     ctx.evaluations += 1
                     c2 = dict(case, corrupted=p, corrupted_with=kind)
+                    if kind != 'nan' and ctx.evaluations % 4 == 0:
+                        # the verification does not depend on the other options of the Delta (force creates missing containers, it does not vouch for the base)
+                        for okw_ in (dict(force=True), dict(force=True, always_include_values=True), dict(log_errors=False)):
+                            try:
+                                copy.deepcopy(base) + mk(raise_errors=True, **okw_)
+                                ctx.violate(dict(c2, delta_options=sorted(okw_)), 'raise_errors=True with %s: a base whose value at %s is not the recorded old value was accepted' % (sorted(okw_), p))
+                            except DeltaError:
+                                ctx.count('corruption_raised:options')
+                            except Exception as e:
+                                ctx.count('corruption_raised_other:' + type(e).__name__)
                     strict = mk(raise_errors=True)          # one Delta object, offered the same wrong base again and again (and the right one in between)
                     for attempt in (1, 2, 3):
                         try:
